@@ -180,6 +180,15 @@ def gen_c05(ctx):
         cases.append(f"in={a} out={b} err={c} det=0 thread=1 argv={TRUE}")
     for a, b, c in [("N", "M", "N"), ("N", "N", "M"), ("N", "N", "N")] * 2:
         cases.append(f"in={a} out={b} err={c} det=0 argv={TRUE}")
+    # options that have nothing to do with redirection must not change the wiring -- also when the caller's own streams are a
+    # terminal (an "inherited" stream is the caller's own stream, whatever kind of file that is)
+    for tty in ("0", "012", "12"):
+        for opt in ("", "pgid=1", "uid=0 gid=0", "det=1x"):
+            for i, o, e in (("N", "N", "N"), ("N", "P", "N"), ("P", "N", "M"), ("N", "M", "N")):
+                a, b, c = triple_spec(i, o, e, True)
+                det = 1 if opt == "det=1x" else 0
+                extra = "" if opt in ("", "det=1x") else " " + opt
+                cases.append(f"in={a} out={b} err={c} det={det}{extra} argv={TRUE} tty={tty}")
     # a caller that runs daemon-style, with some of its own descriptors 0-2 closed: the library's pipes land there
     kinds = ["N", "P"] if ctx.tier == "quick" else ["N", "P", "F", "R"]
     for closed in CLOSED_SETS:
@@ -401,6 +410,11 @@ def gen_c07(ctx, probe_results=None):
         cases.append(f"in=P out=N err=M det={det} argv={hx(os.path.join(dirs['noexec'], 'prog'))}")
         cases.append(f"in=N out=P err=N det={det} cwd={hx(dirs['missing'])} argv={TRUE}")
         cases.append(f"in=N out=N err=N det={det} argv={hx('prog')} path={hx(dirs['missing'] + ':' + dirs['noexec'])}")
+    # exec refusing the file, for every errno it can give: one candidate (a path with a slash) means one attempt and that
+    # errno as the result -- no retry, no fallback
+    for en in (26, 8, 13, 2, 12, 20, 40, 7, 5, 1, 22, 11, 4, 23):
+        cases.append(f"in=N out=P err=N det={en % 2} argv={TRUE},{hx('a')} faults=C.exec.0.{en} expect=err{en} attempts=1")
+    cases.append(f"in=P out=P err=P det=0 argv={hx('sh')} exe={hx('/bin/sh')} faults=C.exec.0.26 expect=err26 attempts=1")
     # a relative program path is relative to the CHILD's working directory: present there and absent in the caller's (must
     # start), absent there and present in the caller's (must fail with ENOENT) -- also through `executable`
     for det in (0, 1):
@@ -447,6 +461,12 @@ def oracle_c07(c, viol):
     if kv.get("expect") == "ok" and res[0] != "ok":
         viol(f"every step of this launch succeeds (the program is there, relative to the child's working directory), but "
              f"Popen::create returned {' '.join(res)}")
+    m = re.match(r"err(\d+)$", kv.get("expect", ""))
+    if m and m.group(1) != "2" and res != ["err", m.group(1)]:
+        viol(f"exec failed with errno {m.group(1)}: expected that error, got {' '.join(res)}")
+    if kv.get("attempts") and len(ex) != int(kv["attempts"]):
+        viol(f"{len(ex)} exec attempts were made ({[r for _, r in ex]}); the command names one file, so there is exactly "
+             f"{kv['attempts']} attempt -- whatever it fails with is the result")
     if kv.get("expect") == "err2" and res != ["err", "2"]:
         viol(f"the program does not exist relative to the child's working directory: expected ENOENT, got {' '.join(res)}")
     faults = kv.get("faults", "-")
